@@ -64,6 +64,11 @@ def finding(fid):
             f"{len(res)} results (all members above the limit) but {len(written)} member files were decompressed and written to disk"
     if fid == "F30-pdf-mcid-order-list-scan":
         return amp_pdf_mcid()
+    if fid == "F31-7z-lzma2-declared-size-ignored":
+        r = sevenzip_declared("_decompress_lzma2")
+        if r is None:
+            return False, {}, "LZMA2 folders stop at the declared size"
+        return True, r["inputs"], r["observed"]
     return False, {}, "unknown finding"
 
 
@@ -665,6 +670,26 @@ AMPLIFIERS = (("pdf_extractor.py::*/amp-bounded#list-membership", amp_pdf_mcid),
               ("mbox_email_extractor.py::*/amp-bounded#no-self-suffix", amp_mbox), ("policy#xml-parsed", amp_xml_all))
 
 
+LZMA2_CHAINS = ("LZMA2", "BCJ+LZMA2", "COPY+LZMA2", "BCJ+COPY+LZMA2")
+LZMA_CHAINS = ("LZMA", "BCJ+LZMA", "COPY+LZMA", "BCJ+COPY+LZMA")
+
+
+def sevenzip_declared(ob=""):
+    """7z folders whose packed stream expands far beyond the declared size.  The coder chains are those of the decoder the obligation names
+    (`_decompress_lzma2` -> chains ending in LZMA2, `_decompress_lzma` -> LZMA); otherwise all chains that are not a recorded finding."""
+    import sys as _sys
+    _sys.path.insert(0, os.path.dirname(os.path.abspath(__file__)))
+    import archive_probe
+    ob = ob or ""
+    if "_decompress_lzma2" in ob:
+        skip = LZMA_CHAINS
+    elif "_decompress_lzma" in ob:
+        skip = LZMA2_CHAINS
+    else:
+        skip = LZMA2_CHAINS if any(f["id"].startswith("F31-") for f in _recorded_findings()) else ()
+    return archive_probe.sevenzip_declared_sizes(skip=skip)
+
+
 def _got(fn):
     from sharepoint2text.parsing.exceptions import ExtractionFileTooLargeError
     try:
@@ -1162,19 +1187,25 @@ def native_scope(which):
     _sys.path.insert(0, os.path.dirname(os.path.abspath(__file__)))
     import archive_probe
     if which == "explicit-limits":
-        for fn in (limits_read_file, limits_file_types, limits_7z, limit_values, archive_probe.oversize_members, member_boundary, tar_links, entry_limit):
+        for fn in (limits_read_file, limits_file_types, limits_7z, limit_values, archive_probe.oversize_members, archive_probe.sevenzip_members, member_boundary, tar_links, entry_limit):
             r = fn()
             if r is not None:
                 r["reproduced"] = True
                 return r
         return {"reproduced": False, "note": "read_file / 7z / per-member / per-entry limits hold at their boundaries (files of 100, 5000, 70000 bytes, symlinks, "
-                                             "the 7z fixture, zip/tar layouts with oversize, same-name and link members)"}
+                                             "the 7z fixture, zip/tar layouts with oversize, same-name and link members, 7z archives with an oversize member behind six spellings of a small member's path)"}
     if which == "zip-bomb-classes":
         r = zip_bomb_classes()
         if r is not None:
             return r
         return {"reproduced": False, "note": "odt / ods / docx with a 6 MB deflate-bomb content part in 14 container variants (streamed entries, header flag bits, "
                                              "directory attributes, bzip2 / lzma, duplicate names): all refused"}
+    if which == "7z-declared-sizes":
+        r = sevenzip_declared("")
+        if r is not None:
+            return r
+        return {"reproduced": False, "note": "7z folders declared as 128 bytes whose packed LZMA / LZMA2 stream expands to 48 MB, alone and behind BCJ / COPY coders "
+                                             "(chains recorded as known findings left out): none is inflated beyond the declared size"}
     if which == "repeat-attribute-classes":
         rec = {f["id"] for f in _recorded_findings()}
         ok, inputs, obs = repeat_classes(set(), rec)
@@ -1223,6 +1254,17 @@ def find(req):
             return r
     if generic or "zip_bomb" in ob or "validate_zipfile" in ob or "open_zipfile" in ob:
         r = zip_bomb_classes()
+        if r is not None:
+            return r
+    # ---- 7z: declared folder sizes, members sharing a path
+    if generic or "sevenzip.py::" in ob or "_decompress" in ob:
+        r = sevenzip_declared(ob)
+        if r is not None:
+            return r
+        if not generic:
+            return {"reproduced": False, "note": "no 7z folder is inflated beyond its declared size in the directed coder chains"}
+    if generic or "_extract_from_7z_optimized" in ob or "_process_7z" in ob:
+        r = archive_probe.sevenzip_members()
         if r is not None:
             return r
     # ---- per-member limits
